@@ -14,7 +14,13 @@ one() {
   d=$1; id=$(basename "$d"); prop=${id%%-*}
   [ -f "$d/patch.diff" ] || return 0
   W=$(mktemp -d /tmp/stv_mx.XXXXXX)
-  git -C /repo worktree add --detach -f "$W/r" HEAD >/dev/null 2>&1 || { echo "$id WORKTREE-FAILS"; rm -rf "$W"; return 0; }
+  # (concurrent `git worktree add` calls contend for a lock: retry a few times)
+  ok=0
+  for try in 1 2 3 4 5; do
+    if git -C /repo worktree add --detach -f "$W/r" HEAD >/dev/null 2>&1; then ok=1; break; fi
+    sleep $try
+  done
+  [ $ok = 1 ] || { echo "$id WORKTREE-FAILS"; rm -rf "$W"; return 0; }
   if ! git -C "$W/r" apply "$V/$d/patch.diff" 2>/dev/null; then
     echo "$id PATCH-FAILS"
   else
